@@ -727,10 +727,129 @@ func conserveRule(w *World, r *Report, rule string, a distAnchors) {
 					missing = w.Pos(c2.Pos())
 				}
 			}
+			// ... and it is credited on every path: at each level of the call chain down to the credit, every path to a
+			// return passes the next call (resp. the credit itself) - except, in the function of the credit, behind the test
+			// that the primary destination is the main account (then the remainder stays un-booked in the main account)
+			everyPath := ""
+			for lvl := 0; lvl <= len(e.Chain); lvl++ {
+				var f *ssa.Function
+				var via ssa.Instruction
+				if lvl < len(e.Chain) {
+					f, via = e.Chain[lvl].Caller, e.Chain[lvl].Instr
+				} else {
+					f, via = cf, s.Instr
+				}
+				mainEdges := map[Edge]bool{}
+				if lvl == len(e.Chain) {
+					for _, me := range EdgesWhere(f, func(base ssa.Value) (bool, bool) {
+						bo, ok := base.(*ssa.BinOp)
+						if !ok || (bo.Op != token.EQL && bo.Op != token.NEQ) {
+							return false, false
+						}
+						isType := func(v ssa.Value) bool { return loadOfField(v, "Type", nil) }
+						isMain := func(v ssa.Value) bool { s, ok := EvalString(v); return ok && s == "MAIN" }
+						if (isType(bo.X) && isMain(bo.Y)) || (isType(bo.Y) && isMain(bo.X)) {
+							return bo.Op == token.EQL, true
+						}
+						return false, false
+					}) {
+						mainEdges[me] = true
+					}
+				}
+				// search a path entry -> return that avoids the block of `via` and the MAIN edges
+				seen := map[*ssa.BasicBlock]bool{}
+				stack := []*ssa.BasicBlock{f.Blocks[0]}
+				for len(stack) > 0 && everyPath == "" {
+					b := stack[len(stack)-1]
+					stack = stack[:len(stack)-1]
+					if seen[b] || b == via.Block() || b == f.Recover {
+						continue
+					}
+					seen[b] = true
+					if len(b.Instrs) > 0 {
+						if ret, isRet := b.Instrs[len(b.Instrs)-1].(*ssa.Return); isRet {
+							everyPath = funcName(f) + " can return at " + w.Pos(ret.Pos())
+							continue
+						}
+					}
+					for i, sc := range b.Succs {
+						if !mainEdges[Edge{b, i}] {
+							stack = append(stack, sc)
+						}
+					}
+				}
+			}
+			r.Check(everyPath == "", rule, "the remainder is credited on every path (unless the primary destination is the main account)", pos, "no return of the distribution routine is reached without the final credit", "the inflow handed to the distribution routine can be dropped: "+everyPath+" without crediting what is left to the primary destination - the sources were already emptied, so those coins are in no state's books")
 			r.Check(missing == "", rule, "the remainder credited is what is left after every subtraction", pos, fmt.Sprintf("all %d subtractions of shares are on the backward slice of the credited remainder", len(subs)), "the value credited to the primary destination was taken before the subtraction at "+missing+": that share is paid twice")
 			continue
 		}
 		r.Bad(rule, "value credited in "+s.Method, pos, "a value that is neither a computed share nor the running remainder is credited to a state")
+	}
+	// between the collection of the inflow (which empties the sources and zeroes their leftovers) and the distribution
+	// routine nothing but "nothing was collected" may skip the distribution
+	if bb := w.Func("x/cfedistributor.BeginBlocker"); bb != nil {
+		var prepE, startE *EffSite
+		for _, e := range w.effectsBelow(bb, func(s *Site) bool {
+			return calleeIs(s, "x/cfedistributor/keeper.Keeper.PrepareCoinsToDistribute") || calleeIs(s, "x/cfedistributor/keeper.Keeper.StartDistributionProcess")
+		}, 2) {
+			e := e
+			if calleeIs(e.Site, "x/cfedistributor/keeper.Keeper.PrepareCoinsToDistribute") {
+				prepE = &e
+			} else {
+				startE = &e
+			}
+		}
+		if prepE == nil || startE == nil || prepE.Site.Caller != startE.Site.Caller {
+			r.Unk(rule, "collection and distribution of a sub-distributor's inflow", w.Pos(bb.Pos()), "the calls of PrepareCoinsToDistribute and StartDistributionProcess were not found in one function of the block routine")
+		} else {
+			f := prepE.Site.Caller
+			prep := siteValue(prepE.Site)
+			zeroEdges := map[Edge]bool{}
+			for _, ze := range EdgesWhere(f, func(base ssa.Value) (bool, bool) {
+				c, ok := base.(*ssa.Call)
+				if ok && hasSuffixAny(callName(c.Common()), "types.DecCoins.IsZero", "types.DecCoins.Empty") && len(c.Common().Args) > 0 && c.Common().Args[0] == prep {
+					return true, true
+				}
+				return false, false
+			}) {
+				zeroEdges[ze] = true
+			}
+			skipped := ""
+			from, target := prepE.Site.Instr.Block(), startE.Site.Instr.Block()
+			if from != target {
+				seen := map[*ssa.BasicBlock]bool{}
+				var stack []*ssa.BasicBlock
+				for i, sc := range from.Succs {
+					if !zeroEdges[Edge{from, i}] {
+						stack = append(stack, sc)
+					}
+				}
+				for len(stack) > 0 && skipped == "" {
+					b := stack[len(stack)-1]
+					stack = stack[:len(stack)-1]
+					if seen[b] || b == target {
+						continue
+					}
+					seen[b] = true
+					if b == from {
+						skipped = "the next sub-distributor is reached"
+						continue
+					}
+					if len(b.Instrs) > 0 {
+						if _, isRet := b.Instrs[len(b.Instrs)-1].(*ssa.Return); isRet {
+							skipped = "the function returns"
+							continue
+						}
+					}
+					for i, sc := range b.Succs {
+						if !zeroEdges[Edge{b, i}] {
+							stack = append(stack, sc)
+						}
+					}
+				}
+			}
+			r.Check(skipped == "", rule, "a collected inflow is always distributed", w.Pos(startE.Site.Instr.Pos()), "between collection and distribution only the test 'nothing was collected' skips the distribution", "after the sources were emptied "+skipped+" without the distribution routine having run, on a path that is not the 'nothing collected' edge: the collected coins are in no state's books")
+		}
 	}
 	r.Check(finals == 1, rule, "the remainder is credited exactly once", w.Pos(fn.Pos()), "one credit of the running remainder", fmt.Sprintf("%d credits of the running remainder", finals))
 	// rounding discipline
@@ -758,6 +877,7 @@ func checkC04(w *World, r *Report) {
 	r.Rule("C04.key", "P8,P6", "lookup key = persistence key: the in-memory state lookup compares every Account field that determines the store key (GetStateKey/GetAccountKey); the burn state is looked up by its Burn flag alone", 2)
 	r.Rule("C04.sameshape", "P7", "= C12.sameshape for State.Account: the burn destination is served whatever shape its (unused) Account field has - no pay-out or burn is control-dependent on the nil-ness of a field that validation accepts nil (imported) and the runtime creates non-nil", 1)
 	r.Rule("C04.everyshare", "P5", "in the loop over Destinations.Shares every iteration path subtracts that share's calculatePercentage(share.Share, inflow) from the remainder, whatever the destination type", 1)
+	r.Rule("C04.conserve", "P5,P6", "= C03.conserve: the primary destination receives exactly what is left after every named share and the burn share were taken off - on every path, once, and a collected inflow is always distributed", 6)
 	r.Rule("C04.fraction", "P6", "the fraction used for a destination is that destination's own Share (resp. the sub-distributor's BurnShare), applied to the sub-distributor's total inflow, and credited to that same destination", 4)
 	r.Rule("C04.order", "P4,P6", "= C03.order: the outcome must not depend on the order in which sources are listed", 1)
 	if !ro.checkFloors(r) {
@@ -965,6 +1085,7 @@ func checkC04(w *World, r *Report) {
 		}
 	}
 	orderRule(w, r, "C04.order", a)
+	conserveRule(w, r, "C04.conserve", a)
 }
 
 func keysOf(m map[string]bool) []string {
